@@ -25,9 +25,9 @@ func init() {
 		Level: "model_checking",
 		Rule: "choice-tree exploration: every corpus template x every assignment of <=k letters of {/*c*/, // c, newline, blank line, multi-line /*c*/} to its inter-token gaps, " +
 			"canonicalised with gofmt and deduplicated (state = canonical text); each distinct canonical file is pushed through Parse/Fprint, explicit Decorator+Restorer on a shared populated FileSet (also: one Restorer restoring two files before either is printed; a Restorer with Extras; the Decorate/DecorateFile/RestoreFile helpers and a named FileRestorer), " +
-			"ParseFile with 3 parser modes and (k<=1) ParseDir; in the quick tier files with two insertions go through the three principal entry points only (Parse+Fprint, shared FileSet, one Restorer for two files); non-trivial = canonical file with at least one insertion",
+			"ParseFile with 3 parser modes and (k<=1) ParseDir; plus one big file made of the declarations of all import-free templates (thorough: with every single comment insertion); in the quick tier files with two insertions go through the three principal entry points only (Parse+Fprint, shared FileSet, one Restorer for two files); non-trivial = canonical file with at least one insertion",
 		Assumptions: []string{"go/format of this toolchain defines 'gofmt canonical'", "comment texts range over the alphabet only", "templates are the committed corpus"},
-		Units:       func(tier string) []string { return gapUnits(gen.Templates(), c01Shards) },
+		Units:       func(tier string) []string { return append(gapUnits(gen.Templates(), c01Shards), "big-file") },
 		Run:         runC01,
 		Check: func(c core.Case) core.Outcome {
 			g := decodeGap(c)
@@ -36,7 +36,39 @@ func init() {
 	})
 }
 
+// c01BigFile concatenates the declarations of every import-free template into one file of several
+// hundred lines (sizes the single templates never reach: line tables, buffers, offsets beyond 4 KB).
+func c01BigFile() string {
+	var b strings.Builder
+	b.WriteString("package a\n")
+	for _, t := range gen.Templates() {
+		if strings.Contains(t.Src, "import") || strings.Contains(t.Src, "//line") || strings.Contains(t.Src, "/*line") || strings.Contains(t.Src, "//go:build") || !strings.HasPrefix(t.Src, "package a\n") {
+			continue
+		}
+		b.WriteString(strings.TrimPrefix(t.Src, "package a\n"))
+	}
+	out, err := gofmt(b.String())
+	if err != nil {
+		panic(err)
+	}
+	return out
+}
+
 func runC01(ctx *core.Ctx, unit int) {
+	if unit == len(gen.Templates())*c01Shards {
+		big := c01BigFile()
+		t := gen.Template{Name: "big-file", Src: big}
+		ctx.Max("big_file_bytes", float64(len(big)))
+		// the file as it is and (thorough) with every single insertion of a block comment or a line comment
+		k := 0
+		if ctx.Thorough() {
+			k = 1
+		}
+		forEachCanonical(ctx, t, gen.Sigma[:2], k, 0, 1, func(gc GapCase) {
+			ctx.Eval(gc, checkC01(gc.Src, len(gc.Ins) == 0, true))
+		})
+		return
+	}
 	ti, shard := splitUnit(unit, c01Shards)
 	t := gen.Templates()[ti]
 	k := 2
